@@ -23,6 +23,12 @@ class Ctx:
     def cfg(self, fn):
         return cfg.cfg_of(fn)
 
+    def inl(self, fn, also=(), keep=()):
+        """the function with private helpers of the crate inlined (A11): structural rules are written against this body, so that
+        an extract-function refactoring does not change their verdict"""
+        from .inline import inlined
+        return inlined(self.F, fn, also=also, keep=keep)
+
     def analysed_summary(self):
         F = self.F
         per = {}
